@@ -902,6 +902,7 @@ fn main() {
     let mut out: Option<PathBuf> = None;
     let mut map: Option<PathBuf> = None;
     let mut canary = false;
+    let mut stubs: Vec<String> = vec![];
     let mut i = 1;
     while i < args.len() {
         match args[i].as_str() {
@@ -920,6 +921,10 @@ fn main() {
             "--canary" => {
                 canary = true;
                 i += 1;
+            }
+            "--stub" => {
+                stubs = args[i + 1].split('|').map(|x| x.trim().to_string()).filter(|x| !x.is_empty()).collect();
+                i += 2;
             }
             a => {
                 tpl = Some(PathBuf::from(a));
@@ -949,13 +954,28 @@ fn main() {
     }
 
     let mut output = String::new();
+    let mut last_text_fn = String::new();
+    let mut stubbed: Vec<String> = vec![];
     let mut fn_maps: Vec<serde_json::Value> = vec![];
     let mut item_maps: Vec<serde_json::Value> = vec![];
     let cur_line = |o: &String| o.bytes().filter(|b| *b == b'\n').count() + 1;
 
-    for n in &nodes {
+    for (node_idx, n) in nodes.iter().enumerate() {
         match n {
-            Node::Text(t) => output.push_str(t),
+            Node::Text(t) => {
+                output.push_str(t);
+                // remember the last hand-written `fn name` (wrapper of the slices that follow)
+                for (pos, _) in t.match_indices("fn ") {
+                    let rest = &t[pos + 3..];
+                    let name: String = rest.chars().take_while(|c| c.is_alphanumeric() || *c == '_').collect();
+                    let before_ok = pos == 0 || !t[..pos].chars().last().map(|c| c.is_alphanumeric() || c == '_').unwrap_or(false);
+                    let line_start = t[..pos].rfind('\n').map(|p| p + 1).unwrap_or(0);
+                    let is_comment = t[line_start..pos].trim_start().starts_with("//");
+                    if before_ok && !name.is_empty() && !is_comment {
+                        last_text_fn = name;
+                    }
+                }
+            }
             Node::Item(d) => {
                 let ctx = format!("{}:{} @@item {} {}", d.tpl_file, d.tpl_line, d.file, d.name);
                 let src = &srcs[&d.file];
@@ -1043,6 +1063,68 @@ fn main() {
                     (n, _) => die(&format!("{ctx}: selector is ambiguous ({n} matches) or #n out of range")),
                 };
                 let _ = f.attrs;
+                // --stub: the contract could not be placed on the current text of this function
+                // (front-end error in an earlier run): keep the unit checkable by leaving this
+                // function unverified; its obligations are reported as UNDECIDED by the driver
+                let own_name = d.name.clone().unwrap_or_else(|| f.sig.ident.to_string());
+                let stub_key = if d.is_slice {
+                    format!("{} @from:{}", d.selector, d.from.clone().unwrap_or_default())
+                } else if let Some(k) = d.hoist {
+                    format!("{} @hoist:{}", d.selector, k)
+                } else {
+                    d.selector.clone()
+                };
+                let stub_this = !d.is_slice && d.hoist.is_none() && stubs.contains(&stub_key);
+                if stub_this {
+                    stubbed.push(own_name.clone());
+                }
+                let hoist_name = d.sig.as_ref().and_then(|sg| sg.find("fn ").map(|p| sg[p + 3..].chars().take_while(|c| c.is_alphanumeric() || *c == '_').collect::<String>())).unwrap_or_default();
+                if d.hoist.is_some() && stubs.contains(&stub_key) {
+                    stubbed.push(hoist_name.clone());
+                    output.push_str(&format!("// vx:STUBBED {} {} — contract kept as ASSUMED, body UNVERIFIED\n#[verifier::external_body]\n{}\n{}{{ unimplemented!() }}\n", d.file, d.selector, d.sig.clone().unwrap_or_default(), d.spec));
+                    fn_maps.push(serde_json::json!({"selector": d.selector, "file": d.file, "slice": false, "name": hoist_name, "stubbed": true,
+                        "src_lines": [0,0], "out_lines": [0,0], "awaits_erased": 0, "closures": 0, "loops": 0, "has_requires": false, "edits": {}}));
+                    continue;
+                }
+                if d.is_slice && stubs.contains(&stub_key) {
+                    stubbed.push(last_text_fn.clone());
+                    // variables bound by top-level `let`s of the slice stay declared for the
+                    // hand-written tail of the wrapper (which is unreachable after the stub)
+                    let mut lets = String::new();
+                    if let Some(from) = d.from.as_deref() {
+                        let to = d.to.as_deref().unwrap_or(from);
+                        let mut bf = BlockFinder { src: &src.text, from, found: None };
+                        bf.visit_block(f.block);
+                        if let Some(blk) = bf.found {
+                            let mut on = false;
+                            for st in &blk.stmts {
+                                let r = st.span().byte_range();
+                                let t = stmt_text_no_attrs(&src.text, st, r.start, r.end);
+                                if !on && anchor_match(t, from) { on = true; }
+                                if on {
+                                    if let syn::Stmt::Local(l) = st {
+                                        let mut ids = vec![];
+                                        collect_pat_idents(&l.pat, &mut ids);
+                                        // only the variables the hand-written tail of the wrapper mentions
+                                        let tail: String = match nodes.get(node_idx + 1) {
+                                            Some(Node::Text(t)) => t.split("\n}").next().unwrap_or("").to_string(),
+                                            _ => String::new(),
+                                        };
+                                        for id in ids {
+                                            let used = tail.split(|c: char| !(c.is_alphanumeric() || c == '_')).any(|w| w == id);
+                                            if used { lets.push_str(&format!("    let {id} = vx_stub_diverge();\n")); }
+                                        }
+                                    }
+                                    if d.to.is_none() || anchor_match(t, to) { if !(from.starts_with('>')) || true { if d.to.is_none() { break; } else if anchor_match(t, to) { break; } } }
+                                }
+                            }
+                        }
+                    }
+                    output.push_str(&format!("// vx:slice {} {} (src lines 0-0) STUBBED — UNVERIFIED\n    if vx_stub_cond() {{ return vx_stub_diverge(); }}\n{}", d.file, stub_key, lets));
+                    fn_maps.push(serde_json::json!({"selector": d.selector, "file": d.file, "slice": true, "name": last_text_fn, "stubbed": true,
+                        "src_lines": [0,0], "out_lines": [0,0], "awaits_erased": 0, "closures": 0, "loops": 0, "has_requires": false, "edits": {}}));
+                    continue;
+                }
                 let mut ed = Ed::new(&src.text, d);
                 let mut counts: BTreeMap<String, usize> = BTreeMap::new();
                 let emitted: String;
@@ -1154,11 +1236,15 @@ fn main() {
                     for inp in &sig.inputs {
                         ed.visit_fn_arg(inp);
                     }
-                    for s in &f.block.stmts {
-                        ed.visit_stmt(s);
+                    if !stub_this {
+                        for s in &f.block.stmts {
+                            ed.visit_stmt(s);
+                        }
                     }
                     ed.finish_cfg();
-                    check_used(&ed, d, &ctx);
+                    if !stub_this {
+                        check_used(&ed, d, &ctx);
+                    }
                     let mut sig_text = apply_edits(&src.text, sig_lo, sig_hi, &ed.edits, &mut counts).unwrap_or_else(|e| die(&format!("{ctx}: {e}")));
                     let sig_trim = sig_text.trim_end().to_string();
                     sig_text = sig_trim;
@@ -1171,23 +1257,34 @@ fn main() {
                         }
                         *counts.entry("E9-where".into()).or_insert(0) += 1;
                     }
-                    let body = apply_edits(&src.text, blk_r.start + 1, blk_r.end - 1, &ed.edits, &mut counts).unwrap_or_else(|e| die(&format!("{ctx}: {e}")));
+                    let body = if stub_this {
+                        "        unimplemented!()\n".to_string()
+                    } else {
+                        apply_edits(&src.text, blk_r.start + 1, blk_r.end - 1, &ed.edits, &mut counts).unwrap_or_else(|e| die(&format!("{ctx}: {e}")))
+                    };
                     let vis = if d.nopub { "" } else { "pub " };
                     let mk = |sig_text: &str, spec: &str| -> String {
                         let mut s = String::new();
+                        if stub_this {
+                            s.push_str("// vx:STUBBED — contract kept as ASSUMED, body UNVERIFIED\n#[verifier::external_body]\n");
+                        }
                         s.push_str(vis);
                         s.push_str(sig_text);
                         s.push('\n');
                         s.push_str(spec);
                         s.push_str("{\n");
-                        s.push_str(&d.pre);
+                        if !stub_this {
+                            s.push_str(&d.pre);
+                        }
                         s.push_str(&body);
-                        s.push_str(&d.post);
+                        if !stub_this {
+                            s.push_str(&d.post);
+                        }
                         s.push_str("}\n");
                         s
                     };
                     let mut text = mk(&sig_text, &d.spec);
-                    if canary && !d.nocanary && spec_has_requires(&d.spec) {
+                    if canary && !d.nocanary && !stub_this && spec_has_requires(&d.spec) {
                         let fname = d.name.clone().unwrap_or_else(|| sig.ident.to_string());
                         let csig = replace_fn_name(&sig_text, &fname, &format!("{fname}__canary"));
                         let cspec = canary_spec(&d.spec);
@@ -1211,7 +1308,7 @@ fn main() {
                     "// vx:{} {} {} (src lines {}-{})\n",
                     if d.is_slice { "slice" } else { "fn" },
                     d.file,
-                    d.selector,
+                    stub_key,
                     line_of(&src.text, src_range.0),
                     line_of(&src.text, src_range.1)
                 ));
@@ -1224,6 +1321,7 @@ fn main() {
                     "awaits_erased": ed.awaits,
                     "closures": ed.closure_idx, "loops": ed.loop_idx,
                     "has_requires": spec_has_requires(&d.spec),
+                    "stubbed": stub_this,
                     "edits": counts,
                 }));
             }
@@ -1235,7 +1333,7 @@ fn main() {
     }
     fs::write(&out, &output).unwrap_or_else(|e| die(&format!("cannot write {}: {e}", out.display())));
     if let Some(m) = map {
-        let j = serde_json::json!({ "template": tpl.display().to_string(), "functions": fn_maps, "items": item_maps, "canary": canary });
+        let j = serde_json::json!({ "template": tpl.display().to_string(), "functions": fn_maps, "items": item_maps, "canary": canary, "stubbed": stubbed });
         fs::write(&m, serde_json::to_string_pretty(&j).unwrap()).unwrap();
     }
 }
@@ -1278,6 +1376,16 @@ fn anchor_match(text: &str, anchor: &str) -> bool {
     match anchor.strip_prefix('~') {
         Some(a) => text.contains(a.trim()),
         None => text.starts_with(anchor),
+    }
+}
+
+fn collect_pat_idents(p: &syn::Pat, out: &mut Vec<String>) {
+    match p {
+        syn::Pat::Ident(i) => out.push(i.ident.to_string()),
+        syn::Pat::Tuple(t) => { for e in &t.elems { collect_pat_idents(e, out); } }
+        syn::Pat::Type(t) => collect_pat_idents(&t.pat, out),
+        syn::Pat::Reference(r) => collect_pat_idents(&r.pat, out),
+        _ => {}
     }
 }
 
